@@ -38,6 +38,13 @@ SETTINGS = {
     "force_exclude": (["--force-exclude"], True, "true", True, False),
     "include": (None, None, '["*.txt"]', ["*.txt"], ["*.md"]),
 }
+# a second config value per setting that CONFLICTS with what the flag gives (so flag-over-config is observable)
+ALT_CFG = {
+    "semantic": ("false", False), "cleanups": ("false", False), "smartquotes": ("false", False), "ellipses": ("false", False),
+    "respect_gitignore": ("true", True), "force_exclude": ("false", False), "width": ("0", 0), "files_max_size": ("0", 0),
+    "exclude": ("[]", []), "extend_include": ("[]", []), "extend_exclude": ("[]", []), "list_spacing": ('"preserve"', "preserve"),
+    "include": ('["*.md", "*.rst"]', ["*.md", "*.rst"]),
+}
 # explicit flag passed with its DEFAULT value (only possible for valued options)
 DEFAULT_VALUED = {"width": ["--width", "88"], "list_spacing": ["--list-spacing", "preserve"], "files_max_size": ["--files-max-size", "1048576"]}
 FORMATTING = ["width", "semantic", "cleanups", "smartquotes", "ellipses", "list_spacing"]
@@ -112,8 +119,10 @@ def write_config(d: Path, kind: str, style: str, case: str, entries: dict[str, s
     (d / kind).write_text(body)
 
 
-def expected_value(setting, flag_mode, cfg_set, auto):
-    cli_args, cli_val, _, cfg_val, default = SETTINGS[setting]
+def expected_value(setting, flag_mode, cfg_set, auto, cfg_val=None):
+    cli_args, cli_val, _, cfg_val0, default = SETTINGS[setting]
+    if cfg_val is None:
+        cfg_val = cfg_val0
     if flag_mode == "given":
         return cli_val
     if flag_mode == "given-default":
@@ -132,7 +141,7 @@ def oracle(ctx: Ctx) -> None:
     for setting, (cli_args, cli_val, toml_val, cfg_val, default) in SETTINGS.items():
         flag_modes = ["absent"] + (["given"] if cli_args else []) + (["given-default"] if setting in DEFAULT_VALUED else [])
         for flag_mode in flag_modes:
-            for cfg_set in (False, True):
+            for cfg_set in (False, True, "alt"):
                 for auto in (False, True):
                     combos = [(k, st, cs, nest) for k in kinds for st in ("flat", "sectioned") for cs in ("kebab", "snake") for nest in (0, 2)]
                     if ctx.tier == "quick":
@@ -145,7 +154,11 @@ def oracle(ctx: Ctx) -> None:
                                 cwd = cwd / f"n{i}"
                             cwd.mkdir(parents=True, exist_ok=True)
                             (cwd / "doc.md").write_text("x\n")
-                            if cfg_set:
+                            cfg_py = cfg_val
+                            if cfg_set == "alt":
+                                cfg_py = ALT_CFG[setting][1]
+                                write_config(d, kind, style, case, {setting: ALT_CFG[setting][0]})
+                            elif cfg_set:
                                 write_config(d, kind, style, case, {setting: toml_val})
                             else:
                                 write_config(d, kind, style, case, {})
@@ -167,7 +180,7 @@ def oracle(ctx: Ctx) -> None:
                                 ctx.fail("CLI did not reach the formatter", case_d, {"rc": rc, "err": err[:300]})
                                 continue
                             got = effective(rec, setting)
-                            want = expected_value(setting, flag_mode, cfg_set, auto)
+                            want = expected_value(setting, flag_mode, bool(cfg_set), auto, cfg_py)
                             if got != want:
                                 ctx.fail("PRECEDENCE: effective value differs from flag > config > default", case_d,
                                          {"effective": got, "expected": want, "stderr": err[:200]})
@@ -342,8 +355,8 @@ def run(ctx: Ctx) -> None:
     driver_ok = lean_obligations(ctx)
     replay_findings(ctx)
     if driver_ok:
-        tie_merge(ctx)
-        tie_findconfig(ctx)
+        ctx.guard("tie merge", tie_merge)
+        ctx.guard("tie findconfig", tie_findconfig)
     oracle(ctx)
     ctx.assume("argparse and tomllib are modelled only through the option tables / key flattening")
 
